@@ -23,8 +23,6 @@ class State:
         return s
 
     def assume(self, t):
-        if t.op == "true":
-            return
         self.pc.append(t)
 
     def set_var(self, name, val):
